@@ -45,7 +45,18 @@ pub fn prot_palette() -> Vec<RProtected> {
     for h in crate::spaces::c11::single_field_headers().into_iter().skip(1).take(5) {
         v.push(RProtected { original: None, header: h });
     }
+    // crit in an order that no canonical form would produce (the list is the caller's)
+    v.push(RProtected { original: None, header: RHeader { crit: vec![l_text("x"), l_int(4), l_int(1)], key_id: b"k".to_vec(), ..Default::default() } });
     v
+}
+
+/// Built protected headers naming each registered algorithm and nothing else (no structure depends
+/// on which algorithm is named; a table of pre-encoded headers would).
+pub fn alg_forms() -> Vec<RProtected> {
+    crate::refiana::table(crate::refiana::Reg::Algorithm)
+        .iter()
+        .map(|(_, a)| RProtected { original: None, header: RHeader { alg: Some(l_int(*a)), ..Default::default() } })
+        .collect()
 }
 
 pub fn bstr_classes(ex: &Ex) -> Vec<Vec<u8>> {
@@ -280,18 +291,26 @@ pub fn run_c03(rep: &Report) -> u64 {
 }
 
 pub fn explore_c03(ex: &Ex) {
-    let pal = prot_palette();
+    let mut pal = prot_palette();
+    let base = pal.len();
+    pal.extend(alg_forms());
     let pairs = aad_payload_pairs(ex);
     ex.bound("c03", "protected_forms", json!(pal.len()));
     ex.bound("c03", "aad_payload_pairs", json!(pairs.len()));
     let exact = true;
     // work items: (body index, signer index or none)
     let mut work: Vec<(usize, Option<usize>)> = Vec::new();
-    for b in 0..pal.len() {
+    for b in 0..base {
         work.push((b, None));
-        for s in 0..pal.len() {
+        for s in 0..base {
             work.push((b, Some(s)));
         }
+    }
+    // one header per registered algorithm: as body, as signer, as both (few length classes)
+    for a in base..pal.len() {
+        work.push((a, None));
+        work.push((a, Some(a)));
+        work.push((3, Some(a)));
     }
     let injective: std::sync::Mutex<std::collections::HashMap<Vec<u8>, String>> = std::sync::Mutex::new(std::collections::HashMap::new());
     par_partitions(ex.rep, work, |(bi, si), l| {
@@ -300,7 +319,8 @@ pub fn explore_c03(ex: &Ex) {
         let cx = Cx { pid: ex.pid, space: "c03", case: &case, exact, fams: "S", slots_only: false, body_override: None };
         check_built_slot(&cx, body, l);
         let cbody = subject::c_protected(body).unwrap();
-        for (aad, payload) in &pairs {
+        let swept = *bi >= base || si.map_or(false, |s| s >= base);
+        for (aad, payload) in pairs.iter().take(if swept { 4 } else { pairs.len() }) {
             l.state(1);
             let case = format!("body={} signer={:?} aad_len={} payload_len={}", bi, si, aad.len(), payload.len());
             if let Ok(only) = std::env::var("VERIF_ONLY_CASE") {
@@ -537,7 +557,9 @@ pub fn run_c04(rep: &Report) -> u64 {
 }
 
 pub fn explore_c04(ex: &Ex) {
-    let pal = prot_palette();
+    let mut pal = prot_palette();
+    let base = pal.len();
+    pal.extend(alg_forms());
     let pairs = aad_payload_pairs(ex);
     ex.bound("c04", "protected_forms", json!(pal.len()));
     ex.bound("c04", "aad_payload_pairs", json!(pairs.len()));
@@ -545,7 +567,7 @@ pub fn explore_c04(ex: &Ex) {
     par_partitions(ex.rep, (0..pal.len()).collect(), |bi, l| {
         let body = &pal[*bi];
         let rec1 = crate::spaces::c11::recipient_reps();
-        for (aad, payload) in &pairs {
+        for (aad, payload) in pairs.iter().take(if *bi >= base { 4 } else { pairs.len() }) {
             l.state(1);
             let case = format!("protected={} aad_len={} payload_len={}", bi, aad.len(), payload.len());
             if let Ok(only) = std::env::var("VERIF_ONLY_CASE") {
@@ -706,15 +728,42 @@ pub fn run_c05(rep: &Report) -> u64 {
 }
 
 pub fn explore_c05(ex: &Ex) {
-    let pal = prot_palette();
+    let mut pal = prot_palette();
+    let base = pal.len();
+    pal.extend(alg_forms());
     let cls = bstr_classes(ex);
     ex.bound("c05", "protected_forms", json!(pal.len()));
     ex.bound("c05", "aad_classes", json!(cls.iter().map(|c| c.len()).collect::<Vec<_>>()));
     let table: std::sync::Mutex<std::collections::HashMap<Vec<u8>, String>> = std::sync::Mutex::new(std::collections::HashMap::new());
     let recs = crate::spaces::c11::recipient_reps();
+    // the algorithm named in a recipient's *unprotected* header (protected header empty) has no
+    // say in what the cipher is handed
+    {
+        let algs: Vec<i64> = crate::refiana::table(crate::refiana::Reg::Algorithm).iter().map(|(_, a)| *a).collect();
+        par_partitions(ex.rep, algs, |a, l| {
+            for aad in [&b""[..], &b"x"[..]] {
+                let case = format!("recipient unprotected alg={} aad_len={}", a, aad.len());
+                if let Ok(only) = std::env::var("VERIF_ONLY_CASE") {
+                    if only != case {
+                        continue;
+                    }
+                }
+                l.state(1);
+                l.nontrivial(&case);
+                let cx = Cx { pid: ex.pid, space: "c05.recipient_alg", case: &case, exact: true, fams: "E", slots_only: false, body_override: None };
+                let un = RHeader { alg: Some(l_int(*a)), ..Default::default() };
+                for prot in [RProtected::default(), RProtected { original: Some(vec![]), header: RHeader::default() }, RProtected { original: Some(vec![0xa0]), header: RHeader::default() }] {
+                    let r = RRecipient { protected: prot.clone(), unprotected: un.clone(), ciphertext: Some(b"wrapped".to_vec()), recipients: vec![] };
+                    crypto::recipient_top(&cx, &subject::c_recipient(&r).unwrap(), &[aad], l);
+                    let e = subject::c_encrypt(&REncrypt { protected: RProtected::default(), unprotected: RHeader::default(), ciphertext: Some(b"ct".to_vec()), recipients: vec![r.clone()] }).unwrap();
+                    crypto::encrypt(&cx, &e, &[aad], l);
+                }
+            }
+        });
+    }
     par_partitions(ex.rep, (0..pal.len()).collect(), |bi, l| {
         let body = &pal[*bi];
-        for aad in &cls {
+        for aad in cls.iter().take(if *bi >= base { 3 } else { cls.len() }) {
             for ct in [Some(cls[(aad.len() + 1) % cls.len()].clone()), Some(vec![]), None] {
                 l.state(1);
                 let case = format!("protected={} aad_len={} ciphertext={:?}", bi, aad.len(), ct.as_ref().map(|c| c.len()));
